@@ -11,12 +11,28 @@ use crate::disp::*;
 use crate::dsp::*;
 use crate::plan::*;
 use crate::util::*;
-use serde_json::json;
+use serde_json::{json, Value};
 
 pub const K: u64 = 0xC04; // C04 and C05 share the scenario stream
 pub const CHILD_TIMEOUT_S: f64 = 60.0;
 
+/// Scenario indices from CORPUS_BASE on name the entries of corpus/dispatch.json (committed scenarios that
+/// once exposed a defect; they run first in every check and do not depend on the generator's code).
+pub const CORPUS_BASE: usize = 1_000_000;
+pub fn corpus() -> Vec<Value> {
+    let root = std::env::var("VERIF_ROOT").unwrap_or_else(|_| "/verif".to_string());
+    std::fs::read_to_string(format!("{}/corpus/dispatch.json", root)).ok().and_then(|t| serde_json::from_str::<Value>(&t).ok())
+        .and_then(|v| v.as_array().cloned()).unwrap_or_default()
+}
 pub fn scenario(seed: u64, k: usize) -> DispScenario {
+    if k >= CORPUS_BASE {
+        let c = corpus();
+        if let Some(e) = c.get(k - CORPUS_BASE) {
+            if let (Some(sp), Some(tr)) = (NetSpec::from_json(&e["spec"]), e["trains"].as_array().and_then(|a| a.iter().map(TrainSpec::from_json).collect::<Option<Vec<_>>>())) {
+                return DispScenario { sp, trains: tr, tags: vec![format!("corpus:{}", e["name"].as_str().unwrap_or("?")), format!("trains:{}", e["trains"].as_array().map(|a| a.len()).unwrap_or(0))] };
+            }
+        }
+    }
     let mut r = Rng::new(seed ^ K);
     let mut rk = r.fork();
     for _ in 0..k { rk = r.fork(); }
@@ -217,8 +233,9 @@ pub fn run(seed: u64, n: usize, sink: &mut Sink) {
             sink.put(c);
         }
     }
-    // (ii) whole-system scenarios, one child process each
-    for k in 0..n {
+    // (ii) whole-system scenarios, one child process each: the committed corpus first, then the generated stream
+    let ks: Vec<usize> = (0..corpus().len()).map(|i| CORPUS_BASE + i).chain(0..n).collect();
+    for k in ks {
         match run_child("c05child", seed, k, CHILD_TIMEOUT_S) {
             Ok(cases) => for v in &cases { sink.put(case_from_json(v)); },
             Err(why) => {
